@@ -10,7 +10,7 @@ import json
 import random
 import sys
 
-CLASSES = ["mix", "reuse", "disable", "post", "timers", "idle", "life", "faults", "fds", "ready", "pings", "chans", "streams"]
+CLASSES = ["mix", "reuse", "disable", "post", "timers", "idle", "life", "faults", "fds", "ready", "pings", "chans", "streams", "execs"]
 
 
 def nch(d):
@@ -732,6 +732,170 @@ def pat_idles(rnd, sid):
     return {"id": sid, "tick_us": 2000, "sources": srcs, "progs": progs, "steps": steps}
 
 
+def pat_faults(rnd, sid):
+    """A (un/re)registration fails INSIDE a dispatch -- the one a post action or a deferred request performs -- while
+    other sources (a due timer, a ping, another fd) have events in the same batch; later dispatches must still
+    deliver everything that was not delivered."""
+    r = rnd
+    a = {"s": 1, "kind": "comp", "children": [{"interest": "r", "mode": r.choice(["level", "level", "edge", "oneshot"])}]}
+    if r.random() < 0.4:
+        a["life"] = 1
+    srcs = [a]
+    others = r.sample(["timer", "ping", "comp", "chan"], r.choice([1, 2, 3]))
+    if "timer" not in others and r.random() < 0.6:
+        others.append("timer")
+    for k in others:
+        d = {"s": len(srcs) + 1, "kind": k}
+        if k == "timer":
+            d["held"] = 1
+            d["dl"] = 1
+        if k == "comp":
+            d["children"] = [{"interest": "r", "mode": "level"}]
+        srcs.append(d)
+    steps = [{"op": "insert", "s": d["s"]} for d in srcs]
+    how = r.choice(["reregister", "reregister", "disable", "remove", "self_update", "self_disable"])
+    call = {"reregister": "reregister", "self_update": "reregister", "disable": "unregister", "self_disable": "unregister",
+            "remove": "unregister"}[how]
+    for rnd_i in range(3):
+        steps.append({"op": "wr", "s": 1, "c": 0})
+        for d in srcs[1:]:
+            if d["kind"] == "ping":
+                steps.append({"op": "ping", "s": d["s"]})
+            elif d["kind"] == "chan":
+                steps.append({"op": "send", "s": d["s"], "m": 800 + rnd_i})
+            elif d["kind"] == "comp":
+                steps.append({"op": "wr", "s": d["s"], "c": 0})
+        steps.append({"op": "advance", "k": rnd_i + 1})
+        if rnd_i == 0 or r.random() < 0.3:
+            steps.append({"op": "fault", "s": 1, "call": call})
+        steps.append({"op": "dispatch"})
+        if rnd_i == 0 and how in ("disable", "self_disable") and r.random() < 0.7:
+            steps.append({"op": "enable", "ts": 1})
+    steps += [{"op": "dispatch"}, {"op": "dispatch"}]
+    progs = {}
+    pl = []
+    for k in range(4):
+        ops = [{"op": "rd", "s": 1, "c": 0}]
+        ret = "continue"
+        if k == 0 or r.random() < 0.3:
+            if how == "self_update":
+                ops.append({"op": "update", "ts": 1})
+            elif how == "self_disable":
+                ops.append({"op": "disable", "ts": 1})
+            else:
+                ret = how
+        pl.append({"ops": ops, "ret": ret})
+    progs["s1"] = pl
+    for d in srcs[1:]:
+        if d["kind"] == "comp":
+            progs["s%d" % d["s"]] = [{"ops": [{"op": "rd", "s": d["s"], "c": 0}], "ret": "continue"} for _ in range(5)]
+        if d["kind"] == "timer":
+            progs["s%d" % d["s"]] = [{"ops": [], "ret": r.choice(["drop", {"to": 2 + k}])} for k in range(5)]
+    return {"id": sid, "tick_us": 2000, "sources": srcs, "progs": progs, "steps": steps}
+
+
+def pat_exec(rnd, sid):
+    """Executor histories: futures scheduled from outside, from the completion callback and from inside other futures,
+    woken / completed between and during dispatches, with the executor disabled, re-enabled, removed (futures
+    dropped, schedule() refused), kept by its Dispatcher and re-inserted; per-dispatch limits 1..3 or the real one."""
+    r = rnd
+    held = 1 if r.random() < 0.35 else 0
+    srcs = [{"s": 1, "kind": "exec"}]
+    if held:
+        srcs[0]["held"] = 1
+    if r.random() < 0.3:
+        srcs[0]["life"] = 1
+    other = r.choice([None, "ping", "timer", "exec"])
+    if other:
+        d = {"s": 2, "kind": other}
+        if other == "timer":
+            d["held"] = 1
+            d["dl"] = 1
+        srcs.append(d)
+    execs = [d["s"] for d in srcs if d["kind"] == "exec"]
+    steps = []
+    progs = {}
+    nf = [0]
+    live = {e: [] for e in execs}        # futures believed pending, per executor
+    state = {e: "new" for e in execs}
+
+    def new_fut(e, depth=0):
+        nf[0] += 1
+        f = nf[0]
+        pl = []
+        for k in range(3):
+            ops = []
+            x = r.random()
+            if depth < 2 and x < 0.2:
+                ops.append({"op": "schedule", "s": e, "f": new_fut(e, depth + 1)})
+            elif x < 0.3 and k > 0:
+                ops.append({"op": "wake", "s": e, "f": f})            # wakes itself while being polled
+            elif x < 0.4:
+                ops.append({"op": "complete", "s": e, "f": f, "v": 1000 + f})
+            elif x < 0.5 and live[e]:
+                g = r.choice(live[e])
+                ops.append({"op": r.choice(["wake", "complete"]), "s": e, "f": g, "v": 1000 + g})
+            pl.append({"ops": ops})
+        progs["f%d" % f] = pl
+        live[e].append(f)
+        return f
+    if r.random() < 0.3:
+        steps.append({"op": "schedule", "s": 1, "f": new_fut(1)})       # before the executor is inserted
+    for d in srcs:
+        steps.append({"op": "insert", "s": d["s"]})
+        state[d["s"]] = "in"
+    for rnd_i in range(r.choice([3, 4, 5, 6])):
+        for _ in range(r.choice([1, 2, 3, 4])):
+            e = r.choice(execs)
+            x = r.random()
+            if x < 0.35:
+                steps.append({"op": "schedule", "s": e, "f": new_fut(e)})
+            elif x < 0.6 and live[e]:
+                f = r.choice(live[e])
+                steps.append({"op": "complete", "s": e, "f": f, "v": 1000 + f})
+            elif x < 0.8 and live[e]:
+                steps.append({"op": "wake", "s": e, "f": r.choice(live[e])})
+            elif x < 0.86 and state[e] == "in":
+                steps.append({"op": "disable", "ts": e})
+                state[e] = "dis"
+            elif x < 0.92 and state[e] == "dis":
+                steps.append({"op": "enable", "ts": e})
+                state[e] = "in"
+            elif x < 0.96 and state[e] in ("in", "dis") and rnd_i > 0:
+                steps.append({"op": "remove", "ts": e})
+                state[e] = "out"
+                if held and e == 1 and r.random() < 0.7:
+                    steps.append({"op": "into_inner", "s": 1})
+                    steps.append({"op": "insert", "s": 1})
+                    state[e] = "in"
+            elif other == "ping":
+                steps.append({"op": "ping", "s": 2})
+        if other == "timer":
+            steps.append({"op": "advance", "k": rnd_i + 1})
+        steps.append({"op": "dispatch"})
+    for e in execs:
+        if state[e] == "dis":
+            steps.append({"op": "enable", "ts": e})
+    steps += [{"op": "dispatch"}] * 4
+    # completion callbacks schedule follow-up futures
+    for e in execs:
+        pl = []
+        for k in range(6):
+            ops = []
+            if r.random() < 0.45:
+                ops.append({"op": "schedule", "s": e, "f": new_fut(e, 1)})
+            if r.random() < 0.15 and live[e]:
+                ops.append({"op": "wake", "s": e, "f": r.choice(live[e])})
+            pl.append({"ops": ops})
+        progs["s%d" % e] = pl
+    if other == "timer":
+        progs["s2"] = [{"ops": [], "ret": {"to": 2 + k}} for k in range(6)]
+    scn = {"id": sid, "tick_us": 2000, "sources": srcs, "progs": progs, "steps": steps}
+    if r.random() < 0.6:
+        scn["limit"] = r.choice([1, 2, 3])
+    return scn
+
+
 def gen(seed, n, classes=None):
     classes = classes or CLASSES
     out = []
@@ -745,6 +909,10 @@ def gen(seed, n, classes=None):
             out.append(pat_replace(rnd, "p%d_%s_%d" % (seed, cls, i), cls))
         elif 0.4 <= x < 0.55 and cls in ("post", "mix", "ready", "fds", "disable", "faults", "timers"):
             out.append(pat_defer(rnd, "d%d_%s_%d" % (seed, cls, i)))
+        elif cls == "execs":
+            out.append(pat_exec(rnd, "e%d_%s_%d" % (seed, cls, i)))
+        elif 0.55 <= x < 0.8 and cls == "faults":
+            out.append(pat_faults(rnd, "f%d_%s_%d" % (seed, cls, i)))
         elif 0.4 <= x < 0.7 and cls == "idle":
             out.append(pat_idles(rnd, "i%d_%s_%d" % (seed, cls, i)))
         elif 0.55 <= x < 0.8 and cls == "timers":
